@@ -212,8 +212,8 @@ func mergeRootObjects(aTypes, bTypes map[string]*ast.Definition, a, b *ast.Defin
 			continue
 		}
 
-		// every service may declare the node entry point: it is taken once
-		if isNodeField(f) && fields.ForName(f.Name) != nil {
+		// every service may declare the node entry point (a query field): it is taken once
+		if common.IsQueryObjectName(a.Name) && isNodeField(f) && fields.ForName(f.Name) != nil {
 			continue
 		}
 
